@@ -19,12 +19,22 @@ UniformSample(lo, hi, u) == LET a == RMin(lo, hi)
 \* uninterpreted table value supplied at the boundary
 GaussSample(mean, std, z) == RAdd(mean, RMul(std, z))
 
+\* a forward model may also return without raising but with NaN in every bin ("NaNAll": e.g. a
+\* negative temperature, 0/0 in a profile) or in some bins only ("NaNSome")
+NaNKinds == {"NaNAll", "NaNSome"}
+
 \* what a log-likelihood callback hands back, given the outcome of the model evaluation
-\*   oc      "ok" or the class of the exception raised by the forward model
+\*   oc      "ok", the class of the exception raised by the forward model, or a NaN kind
 \*   caught  classes absorbed by the callback
 \*   zerochi "value" | "nan"  (as built at the pinned commit a perfect fit was reported as NaN)
-ResultKind(oc, caught, zerochi, c2) ==
+\*   allnan  "nan" | "zero"   ("zero": no bin could be compared and chi2 = 0, the best possible
+\*                             likelihood, is reported -- expected-counterexample variant)
+\* "part": some bins are NaN; the statement is silent -- the chi2 over the comparable bins (what
+\* chisq_trans computes) and a non-finite value are both accepted by the bindings
+ResultKind(oc, caught, zerochi, allnan, c2) ==
     IF oc = "ok" THEN (IF c2 = RZero /\ zerochi = "nan" THEN "nan" ELSE "num")
+    ELSE IF oc = "NaNAll" THEN (IF allnan = "nan" THEN "nan" ELSE "num")
+    ELSE IF oc = "NaNSome" THEN "part"
     ELSE IF oc \in caught THEN "nan"
     ELSE "raise"
 =============================================================================
